@@ -148,6 +148,10 @@ let run_conc_case hd body =
   match hd with
   | ["CONC"; "D"; lk; n] -> let hs = lk <> "none" in let o = List.map parse_dop a in emit_ms (d_conc_case hs !variant (ni n) o tt r so s t) (d_conc_spec hs (ni n) o tt r)
   | ["CONC"; "U"; lk; n] -> let hs = lk <> "none" in let o = List.map parse_uop a in emit_ms (u_conc_case hs !variant (ni n) o tt r so s t) (u_conc_spec hs (ni n) o tt r)
+  | ["CONC"; "DM"; _; n] -> let o = List.map parse_mop a in emit_ms (dm_conc_case !variant (ni n) o tt r s t) (m_conc_spec false (ni n) o tt r)
+  | ["CONC"; "UM"; _; n] -> let o = List.map parse_mop a in emit_ms (um_conc_case !variant (ni n) o tt r s t) (m_conc_spec true (ni n) o tt r)
+  | ["CONC"; "DW"; _; n] -> let o = List.map parse_wop a in emit_ms (dw_conc_case !variant (ni n) o tt r s t) (w_conc_spec false (ni n) o tt r)
+  | ["CONC"; "UW"; _; n] -> let o = List.map parse_wop a in emit_ms (uw_conc_case !variant (ni n) o tt r s t) (w_conc_spec true (ni n) o tt r)
   | _ -> failwith "bad CONC case"
 let run_case line =
   match String.index_opt line ':' with
